@@ -98,6 +98,15 @@ CHECKS["C18"] = dict(level="model_checking", design="5/C18, 4.10",
          "relative paths, with/without search list and QASM3_PATH, 1-2 include sites incl. stdgates.inc and includes below global scope) and prints each with the required observation; a stride "
          "sample (thorough: all / every 2nd) is materialised in a private directory tree and the real analysis compared (marker stream, tree of tagged diagnostic lists, FileNotFound count).",
     note="acyclic arrangements only; temp tree + env var handled inside the harness process", technique="TLC model check of include machine spec against textual-inclusion requirement + replay of arrangements on disk", engine="tlc+replay")
+CHECKS["C08"] = dict(level="exploration", design="5/C08, 4.8",
+    text="TypeRules.tla enumerates 7 866 (statement kind, target type, value type, value form) rows with the 'must always be diagnosed' flag computed from the statement, and 2 560 "
+         "(operator, operand type pair) rows; the harness analyses each and evaluates: diagnosed, or value type equals target up to const directly, or one explicit cast to exactly the target; "
+         "must-rows need the diagnostic; value expressions carry the type of their symbol/literal class/cast target/measured operand; arithmetic operands have the expression's type or are cast to it.",
+    note="exhaustive over the finite abstraction (9 bases x widths {none,8,32,64} x const); 5 known findings pinned by the suite", technique="TLA+ requirement spec as row generator (TLC), rows replayed into the real analyser", engine="tlc+replay")
+CHECKS["C09"] = dict(level="exploration", design="5/C09, 4.8",
+    text="TypeRules.tla enumerates declaration forms x scalar types x widths across [1, 2^33] (digit strings; 'fits' decided on the string) x scopes, invalid designators, gate/def signatures up to 4x4, "
+         "return types with const-identifier designators, and collisions of user gates with every standard-library gate; the harness compares the recorded types, parameter types and the gate listing.",
+    note="Debug rendering of types::Type is the observation vocabulary", technique="TLA+ requirement spec as case generator (TLC), cases replayed into the real analyser", engine="tlc+replay")
 NOT_YET = {}
 for i in range(1, 21):
     pid = f"C{i:02d}"
